@@ -1,6 +1,7 @@
 From Coq Require Import Extraction ExtrOcamlBasic NArith.
-From SqfsV Require Import C01.GenC01 C01.Res C01.InodeModel C01.InodeProofs.
+From SqfsV Require Import C01.GenC01 C01.Res C01.InodeModel C01.InodeProofs C01.XattrModel.
 Extraction "c01_model.ml" encode decode make_extended make_basic set_xattr_index set_file_size
   set_file_block_start set_frag_location serialize inode_wfb clear_slack view_of view_of_node
   id_to_index id_count_field id_table_bytes id_table_read c_id_table_limit
+  xw_empty xw_begin xw_add_kv xw_end flush rd_all to_hex from_hex
   N.add N.mul N.div_eucl N.compare.
